@@ -527,6 +527,43 @@ def from_text(src):
     return Gram(toks, rules, start=start)
 
 
+def depth_merge_grammar(rng):
+    """one mixed kernel {M: p . B, N: p . c, …} reached in several left contexts whose prefixes
+    have different lengths, so that the Pager merges into that state (and the re-closing they
+    force) arrive one after the other while the state is closed / pending"""
+    nctx = rng.randint(3, 4)
+    pres = []
+    alphabet = list("uvwqrste")
+    rng.shuffle(alphabet)
+    used = 0
+    depths = rng.sample([1, 2, 3, 4, 5], nctx)
+    for dlen in depths:
+        pre = []
+        for j in range(dlen):
+            pre.append(alphabet[(used + j) % len(alphabet)] + str(len(pres)))
+        used += dlen
+        pres.append(pre)
+    trail = list("xyz")
+    inner_kind = rng.randint(0, 2)
+    alts = []
+    for pre in pres:
+        t1, t2 = rng.choice(trail), rng.choice(trail)
+        alts.append([('t', x) for x in pre] + [('r', 'M'), ('t', t1)])
+        if rng.random() < 0.85:
+            alts.append([('t', x) for x in pre] + [('r', 'N'), ('t', t2)])
+    rules = [("S", alts)]
+    if inner_kind == 0:
+        rules += [("M", [[('t', 'p'), ('r', 'B')]]), ("N", [[('t', 'p'), ('t', 'c')]]), ("B", [[('t', 'b')]])]
+    elif inner_kind == 1:
+        rules += [("M", [[('t', 'p'), ('r', 'B')]]), ("N", [[('t', 'p'), ('t', 'c'), ('r', 'O')]]),
+                  ("B", [[('t', 'b')], [('t', 'b'), ('r', 'B')]]), ("O", [[], [('t', 'o')]])]
+    else:
+        rules += [("M", [[('t', 'p'), ('r', 'B'), ('r', 'O')]]), ("N", [[('t', 'p'), ('t', 'c')]]),
+                  ("B", [[('t', 'b')]]), ("O", [[], [('t', 'o')]])]
+    toks = sorted({x for _, ps in rules for a_ in ps for k, x in a_ if k == 't'})
+    return Gram(toks, rules, start="S")
+
+
 def classic_corpus():
     gs = []
     t, r = (lambda x: ('t', x)), (lambda x: ('r', x))
